@@ -178,6 +178,66 @@ def rule_r5(rep, program: Program):
     return r
 
 
+def _pairwise_difference(e):
+    """`x[:, None] - x[None, :]` (or the transposed spelling): the vector's text, else None."""
+    if isinstance(e, ast.BinOp) and isinstance(e.op, ast.Sub) and isinstance(e.left, ast.Subscript) and isinstance(e.right, ast.Subscript) and norm(e.left.value) == norm(e.right.value):
+        a, b = norm(e.left.slice), norm(e.right.slice)
+        if {a.replace(" ", "").strip("()"), b.replace(" ", "").strip("()")} == {":,None", "None,:"}:
+            return norm(e.left.value)
+    return None
+
+
+def rule_r6(rep, program: Program):
+    """Divided differences (f(l_i) - f(l_j)) / (l_i - l_j) over pairs of eigenvalues: the denominator
+    vanishes off the diagonal too when the parameter has repeated eigenvalues (a case the property names).
+    A protection that only covers the diagonal (np.fill_diagonal, np.eye, np.diag) leaves 0/0 = NaN there;
+    the quotient must be replaced wherever the difference itself is (nearly) zero."""
+    r = rep.rule("R6", "divided differences over eigenvalue pairs are protected wherever the pairwise difference vanishes (repeated eigenvalues), not only on the diagonal", floor=1)
+    for k in program.module("matrices").classes.values():
+        for g in k.methods.values():
+            if not g.name.startswith("grad_"):
+                continue
+            defs = {}
+            for n in ast.walk(g.node):
+                if isinstance(n, ast.Assign) and len(n.targets) == 1 and isinstance(n.targets[0], ast.Name):
+                    defs.setdefault(n.targets[0].id, []).append(n.value)
+            diffs = {nm: _pairwise_difference(v[0]) for nm, v in defs.items() if len(v) >= 1 and _pairwise_difference(v[0])}
+            for n in ast.walk(g.node):
+                if not (isinstance(n, ast.BinOp) and isinstance(n.op, ast.Div)):
+                    continue
+                den = n.right
+                nm = den.id if isinstance(den, ast.Name) else None
+                vec = diffs.get(nm) if nm else _pairwise_difference(den)
+                if vec is None:
+                    continue
+                # masks computed from the difference array itself
+                masks = set()
+                for a, vals in defs.items():
+                    for v in vals:
+                        if isinstance(v, ast.Compare) and any(isinstance(x, ast.Name) and x.id == nm for x in ast.walk(v.left)):
+                            masks.add(a)
+                        if isinstance(v, ast.Call) and norm(v.func) in ("np.isclose",) and any(isinstance(x, ast.Name) and x.id == nm for x in ast.walk(v)):
+                            masks.add(a)
+                # is the quotient used only where the mask is false, or the denominator overwritten under the mask?
+                protected = False
+                # the quotient may be held in a local before it is selected
+                q_names = {a for a, vals in defs.items() if any(any(x is n for x in ast.walk(v)) for v in vals)}
+                for c in ast.walk(g.node):
+                    if isinstance(c, ast.Call) and norm(c.func) == "np.where" and len(c.args) == 3 and isinstance(c.args[0], ast.Name) and c.args[0].id in masks and isinstance(c.args[2], ast.Name) and c.args[2].id in q_names:
+                        protected = True
+                    if isinstance(c, ast.Call) and norm(c.func) == "np.where" and len(c.args) == 3 and isinstance(c.args[0], ast.Name) and c.args[0].id in masks and any(x is n for x in ast.walk(c.args[2])):
+                        protected = True
+                    if isinstance(c, ast.Call) and norm(c.func) == "np.where" and len(c.args) == 3 and isinstance(c.args[0], ast.Compare) and any(isinstance(x, ast.Name) and x.id == nm for x in ast.walk(c.args[0])) and any(x is n for x in ast.walk(c.args[2])):
+                        protected = True
+                    if isinstance(c, ast.Assign) and len(c.targets) == 1 and isinstance(c.targets[0], ast.Subscript) and norm(c.targets[0].value) == nm and isinstance(c.targets[0].slice, ast.Name) and c.targets[0].slice.id in masks:
+                        protected = True
+                diag_only = any(isinstance(c, ast.Call) and norm(c.func) == "np.fill_diagonal" and c.args and norm(c.args[0]) == nm for c in ast.walk(g.node))
+                r.inst({"member": g.qualname, "divided difference over": vec, "protected where the difference vanishes": protected, "diagonal-only protection": diag_only})
+                if not protected:
+                    r.violate(PROP, f"{g.qualname}:divided-difference:{nm or norm(den)[:30]}", f"{g.qualname} divides by the pairwise differences of `{vec}`" + (" after setting only their diagonal to a non-zero value" if diag_only else "") + ": for a parameter with a repeated eigenvalue an off-diagonal difference is exactly 0 and the entry becomes 0/0 = NaN (the limit there is the derivative of the function being differenced)", node=n, file=g.file)
+    return r
+
+
 def rule_r4(rep, program: Program):
     """Exact form of the gradients in the non-commutative operator algebra (numeric factors, sides and
     transposes included) for the classes whose gradient is a closed operator expression.  Expected
@@ -346,3 +406,4 @@ def run(rep, program: Program, tier: str) -> None:
     rep.isolate(rule_r3, rep, program)
     rep.isolate(rule_r4, rep, program)
     rep.isolate(rule_r5, rep, program)
+    rep.isolate(rule_r6, rep, program)
